@@ -1,6 +1,6 @@
 """C18 — validation levels only change when errors surface, never the result.
 
-Oracle (real library only), three kinds of case:
+Oracle (real library only), four kinds of case:
 
 levels   a valid document (props/_docgen.py) is loaded at levels 0..3 (list entry point; version explicit or
          inferred).  Every level must accept it.  At every level the same five observations are taken, in this order:
@@ -42,13 +42,38 @@ assign   assignment scripts (enumerated exhaustively, table ASSIGN x modes): a l
                       levels 0..2: unless the assignment already raised, validate_field(f) and validate() raise a
                                gfapy.Error.
          An exception that is not a gfapy.Error in any of these steps is reported as `foreign-exception[...]`.
+script   a sequence of legal public calls on the tags of one line (records of ASSIGN; stand-alone, connected, cloned,
+         disconnected), every value assigned being valid: line.set(t, v), line.t = v, line.delete(t),
+         line.set(t, None), line.get(t), line.t, str(line), on new tag names (nw, zz), custom tags of the record
+         and its predefined tags.  A tag name keeps one family of values for the whole script (table FAM) and every
+         value of the family is valid for the tag whether the datatype of a removed tag is remembered or derived anew
+         from the value.  The same script is run at levels 0..3; then every tag is read (value, datatype), the
+         line is written, validated and written again (case["read_first"] decides whether reading or writing comes
+         first, the same at every level).  Demanded:
+         - no assignment raises at any level (valid-rejected-after-removal[set|attr] when the tag had been removed
+           earlier in the script, else valid-rejected-in-script[...]); delete / set None never raise
+           (legal-call-rejected[...]);
+         - no read or write raises, in the script or after it (valid-tag-unreadable[get|getattr|str|final-get|
+           final-str]), validate() does not raise (valid-rejected-by-validate-after-script), no "# INVALID" marker;
+         - the line ends up with exactly the tags the calls leave, and numbers / strings have the value assigned last
+           (script-result-wrong);
+         - text, tags (name, datatype, value) and text after validation are the same at the four levels, up to the
+           spelling of B/J/H tags parsed from the record (finding #30 is reported by `levels` only)
+           (levels-differ-after-script).
+         The exhaustive part contains the short scripts create / remove / create-again (fixed sample of 360
+         combinations of record, mode, ways of the three steps, family, read_first) and remove / assign-again for one
+         existing custom tag and one predefined tag per record; 12% of the random cases are scripts of 3-8 calls over
+         2-5 tag names.
 
 NOT CHECKED:
   * connected lines (and lines derived from them which stay connected: merged, multiplied, converted): reference
     fields, fields related to back-references (orientations, positions, overlaps of L/E), identifiers (renaming
     is C09) and the header VN tag are read-only or special by design: not assigned;
-  * assignment of a tag whose *name* is invalid, deletion of fields (None), set_datatype; new tags are created
-    only with str/int/float/list/dict values whose default datatype is unambiguous;
+  * assignment of a tag whose *name* is invalid, set_datatype; deletion of positional fields; in `assign` new tags
+    are created only with str/int/float/list/dict values whose default datatype is unambiguous; in `script` a
+    removed tag is only assigned values of its former family (whether a removed tag may change its datatype is
+    not judged), scripts contain valid values only and touch one line only (no merged / multiplied / converted /
+    split-header lines);
   * not clear-cut values: int for an f tag, scalars for J, H strings of odd length, an LN inconsistent with the
     sequence, a `$` position inconsistent with the segment length, lists for H, identifier lists with double spaces
     (the linear paths of the merged modes are built so that the merged GFA1 segment has length 4 like the record);
@@ -69,8 +94,12 @@ RULE = ("levels: valid documents <=12 lines (quick) x 4 levels; text, observatio
         "text+observation after all fields have been read are compared; mono: one-character mutants of "
         "valid documents x 4 levels, acceptance monotone; assign: exhaustive table of (record, field, value kind) x level x "
         "origin of the line (stand-alone, connected, cloned, disconnected, merged segment x 3, multiplied copy, "
-        "version-converted, split header) x set()/attribute. Non-trivial: a document with a tag of a delayed datatype "
-        "or >= 3 lines; every assign case.")
+        "version-converted, split header) x set()/attribute; script: legal call sequences on the tags of one line "
+        "(set, attribute assignment, delete, set None, get, attribute read, str; new, custom and predefined tags; "
+        "valid values only) x 4 levels: nothing raises, the line is readable, writable, valid and the same at every "
+        "level (exhaustive part: create/remove/create-again and remove/assign-again scripts; 12% of the random cases: "
+        "3-8 calls). Non-trivial: a document with a tag of a delayed datatype "
+        "or >= 3 lines; every assign and script case.")
 CASE_TIMEOUT = 60
 
 # ----------------------------------------------------------------------------------------------- assignment table
@@ -234,6 +263,11 @@ def _custom_tags(text):
     return [x[:2] for x in text.split("\t")[1:] if len(x) > 4 and x[2] == ":" and x[4] == ":" and x[:2].islower()]
 
 
+def _all_tags(text):
+    return [x[:2] for x in text.split("\t")[1:] if len(x) > 4 and x[2] == ":" and x[4] == ":" and x[3] in "AifZJHB"
+            and x[:2].isalnum()]
+
+
 def mode_fields(rec, mode):
     """The fields of the record which are assigned in the given mode ([]: the mode does not apply to the record)."""
     rid, ver, text, ctx, fields, ro = rec
@@ -275,14 +309,102 @@ def _assign_space():
 
 ASSIGN_SPACE = _assign_space()
 
+# ----------------------------------------------------------------------------------------------- tag scripts
+# A script is a sequence of legal public calls on the tags of ONE line (every value assigned is valid): the tag is
+# created, read, removed (delete / set to None) and assigned again, through set() or through the attribute syntax.
+# Values are grouped in families; a tag name keeps its family for the whole script, and every value of a family is
+# valid for the tag whether the library still remembers the datatype of the removed tag or derives it anew from the
+# value (so validity never depends on that choice).  A value is written [family, index] in the case.
+FAM = {"i": [5, -3, 0, 7], "i+": [0, 5, 7], "LN": [4], "f": [1.5, -0.25, 2.5], "Z": ["hello world", "a:b", "xyz"],
+       "A": ["b", "c"], "J": [{"a": 1}, {"a": [1, None]}, ["a", 1]],
+       "H": [("@ByteArray", "FF"), ("@ByteArray", "1A2B")], "B": [[1, 2, 3], ("@NumericArray", [1, -2]), [1.5, 2.5]]}
+NEW_FAMS = ["i", "Z", "f", "B", "J", "H"]
+NEW_NAMES = ["nw", "zz"]
+TAG_FAM = {"xi": "i", "xf": "f", "xz": "Z", "xa": "A", "xj": "J", "xh": "H", "xb": "B"}
+# predefined tags of the records (datatype fixed by the name; LN must agree with the sequence)
+PREDEF = {"S1": {"LN": "LN", "SH": "H", "UR": "Z"}, "L1": {"MQ": "i+"}, "C1": {"NM": "i+"}, "S2": {"RC": "i+"},
+          "E1": {"TS": "i+"}, "H2": {"TS": "i+"}}
+SCRIPT_OPS = ("set", "attr", "delete", "none", "get", "getattr", "str")
+SCRIPT_RECORDS = [ri for ri, rec in enumerate(ASSIGN) if not rec[2].startswith("#")]
+
+
+def script_modes(rec):
+    return ["standalone", "connected", "cloned"] + ([] if rec[0].startswith("H") else ["disconnected"])
+
+
+def _script_space():
+    """The short scripts which are part of the exhaustive cases.  (i) A new tag is created, removed and created
+    again: record x stand-alone/connected x way of creating (set, attribute) x way of removing (delete, set None) x
+    way of assigning again x family of the values x whether the line is then read before it is written: a fixed
+    sample of 360 of the 4992 combinations (drawn once with a fixed seed: the same at every run).  (ii) An existing
+    custom tag / a predefined tag of a stand-alone record is removed and assigned again (all combinations)."""
+    import itertools
+    import random
+    full = list(itertools.product(SCRIPT_RECORDS, ("standalone", "connected"), ("set", "attr"), ("delete", "none"),
+                                  ("set", "attr"), NEW_FAMS, (False, True)))
+    rnd = random.Random(2718)
+    sp = []
+    for j in sorted(rnd.sample(range(len(full)), 360)):
+        ri, mode, create, remove, again, fam, read_first = full[j]
+        k = len(FAM[fam])
+        sp.append((ri, mode, read_first, [[create, "nw", fam, j % k], [remove, "nw"], [again, "nw", fam, (j + 1) % k]]))
+    n = 0
+    for ri in SCRIPT_RECORDS:
+        rec = ASSIGN[ri]
+        existing = [t for t in _custom_tags(rec[2]) if t in TAG_FAM][:1] + sorted(PREDEF.get(rec[0], {}))[:1]
+        for f in existing:
+            fam = TAG_FAM.get(f) or PREDEF[rec[0]][f]
+            for remove in ("delete", "none"):
+                for again in ("set", "attr"):
+                    n += 1
+                    sp.append((ri, "standalone", (n // 4) % 2 == 0, [[remove, f], [again, f, fam, n % len(FAM[fam])]]))
+    return sp
+
+
+SCRIPT_SPACE = _script_space()
+
 
 def n_exhaustive(tier):
-    return len(ASSIGN_SPACE)
+    return len(ASSIGN_SPACE) + len(SCRIPT_SPACE)
 
 
 def exhaustive_case(i, tier):
+    if i >= len(ASSIGN_SPACE):
+        ri, mode, read_first, ops = SCRIPT_SPACE[i - len(ASSIGN_SPACE)]
+        return {"kind": "script", "record": ASSIGN[ri][0], "ri": ri, "mode": mode, "read_first": read_first,
+                "ops": [list(o) for o in ops]}
     ri, f, mode, via = ASSIGN_SPACE[i]
     return {"kind": "assign", "record": ASSIGN[ri][0], "ri": ri, "field": f, "mode": mode, "via": via}
+
+
+def gen_script(rng):
+    ri = rng.choice(SCRIPT_RECORDS)
+    rec = ASSIGN[ri]
+    mode = rng.choice(script_modes(rec))
+    fam = {}
+    for f in rng.sample(NEW_NAMES, rng.randint(1, 2)):
+        fam[f] = rng.choice(NEW_FAMS)
+    existing = [t for t in _custom_tags(rec[2]) if t in TAG_FAM]
+    for f in rng.sample(existing, min(len(existing), rng.randint(0, 2))):
+        fam[f] = TAG_FAM[f]
+    pre = sorted(PREDEF.get(rec[0], {}))
+    if pre and rng.random() < 0.5:
+        f = rng.choice(pre)
+        fam[f] = PREDEF[rec[0]][f]
+    pool = sorted(fam)
+    ops = []
+    f = rng.choice(pool)
+    for _ in range(rng.randint(3, 8)):
+        if rng.random() < 0.4:
+            f = rng.choice(pool)
+        kind = rng.choice(["set"] * 5 + ["attr"] * 6 + ["delete"] * 4 + ["none"] * 2 + ["get", "getattr", "str"])
+        if kind in ("set", "attr"):
+            ops.append([kind, f, fam[f], rng.randrange(len(FAM[fam[f]]))])
+        elif kind == "str":
+            ops.append([kind])
+        else:
+            ops.append([kind, f])
+    return {"kind": "script", "record": rec[0], "ri": ri, "mode": mode, "read_first": rng.random() < 0.5, "ops": ops}
 
 
 def budget(tier):
@@ -293,6 +415,8 @@ MUT_CHARS = "\t:*+-$,;0159AaMZz ="
 
 
 def gen_case(rng, tier, i):
+    if rng.random() < 0.12:
+        return gen_script(rng)
     ml = rng.choice([3, 5, 8, 12]) if tier == "quick" else rng.choice([8, 12, 20, 40])
     d = D.gen_doc(rng, max_lines=ml, same_id_groups=False, odd=0.5)
     ver = rng.choice([None, d["version"]])
@@ -322,7 +446,7 @@ def gen_case(rng, tier, i):
 
 
 def nontrivial(case):
-    if case["kind"] == "assign":
+    if case["kind"] in ("assign", "script"):
         return True
     return len(case["lines"]) >= 3 or any(":B:" in l or ":J:" in l or ":H:" in l for l in case["lines"])
 
@@ -331,6 +455,20 @@ def tags(case):
     if case["kind"] == "assign":
         return ["assign", "assign:" + case["record"], case["mode"], case["via"],
                 "dt:" + ASSIGN[case["ri"]][4][case["field"]][0]]
+    if case["kind"] == "script":
+        t = ["script", "script:" + case["record"], case["mode"]]
+        removed, made = set(), set()
+        for op in case["ops"]:
+            t.append("op:" + op[0])
+            if op[0] in ("set", "attr"):
+                t.append("fam:" + op[2])
+                if op[1] in removed:
+                    t.append("%s-after-%s" % (op[0], "removal-of-new-tag" if op[1] in made and op[1] in NEW_NAMES else "removal"))
+                    removed.discard(op[1])
+                made.add(op[1])
+            elif op[0] in ("delete", "none"):
+                removed.add(op[1])
+        return sorted(set(t))
     t = [case["kind"], case["version"], "version-param" if case["ver_param"] else "version-inferred"]
     if case["kind"] == "mono":
         t.append("mut:" + case["mutation"])
@@ -680,17 +818,172 @@ def oracle_assign(case):
     return list(F.values())
 
 
+# ----------------------------------------------------------------------------------------------- script
+def show_script(ops):
+    out = []
+    for op in ops:
+        if op[0] in ("set", "attr"):
+            v = FAM[op[2]][op[3]]
+            out.append("line.set(%r, %r)" % (op[1], v) if op[0] == "set" else "line.%s = %r" % (op[1], v))
+        elif op[0] == "delete":
+            out.append("line.delete(%r)" % op[1])
+        elif op[0] == "none":
+            out.append("line.set(%r, None)" % op[1])
+        elif op[0] == "get":
+            out.append("line.get(%r)" % op[1])
+        elif op[0] == "getattr":
+            out.append("line.%s" % op[1])
+        else:
+            out.append("str(line)")
+    return "; ".join(out)
+
+
+def oracle_script(case):
+    """The same legal calls at the four levels: none may raise, the line must end up the same at every level, with
+    exactly the tags the calls leave (and, for numbers and strings, their values), valid and written without marker."""
+    gfapy = lib.import_gfapy()
+    rec = ASSIGN[case["ri"]]
+    ops = case["ops"]
+    F = {}
+
+    def add(sig, msg):
+        F.setdefault(sig, "%s: %s" % (sig, msg))
+
+    present = dict((t, None) for t in _all_tags(rec[2]))
+    known = {}          # tag -> last value assigned by the script (spec)
+    removed = set()
+    trace = []          # per op: was the target removed earlier in the script (and not assigned since)?
+    for op in ops:
+        trace.append(len(op) > 1 and op[1] in removed)
+        if op[0] in ("set", "attr"):
+            present[op[1]] = None
+            known[op[1]] = (op[2], FAM[op[2]][op[3]])
+            removed.discard(op[1])
+        elif op[0] in ("delete", "none"):
+            present.pop(op[1], None)
+            known.pop(op[1], None)
+            removed.add(op[1])
+    text = show_script(ops)
+    res = {}
+    for level in (0, 1, 2, 3):
+        where = "%s %s at level %d: %s" % (case["mode"], rec[0], level, text)
+        try:
+            line = make_line(gfapy, rec, case["mode"], level)
+        except Exception as e:  # noqa
+            add("harness-cannot-build", "%s: %s" % (where, e))
+            continue
+        bad = False
+        for k, op in enumerate(ops):
+            if op[0] in ("set", "attr"):
+                v = mk(gfapy, FAM[op[2]][op[3]])
+                fn = (lambda: line.set(op[1], v)) if op[0] == "set" else (lambda: setattr(line, op[1], v))
+            elif op[0] == "delete":
+                fn = lambda: line.delete(op[1])
+            elif op[0] == "none":
+                fn = lambda: line.set(op[1], None)
+            elif op[0] == "get":
+                fn = lambda: line.get(op[1])
+            elif op[0] == "getattr":
+                fn = lambda: getattr(line, op[1])
+            else:
+                fn = lambda: str(line)
+            r = step(gfapy, fn)
+            if r[0] != "ok":
+                what = "call no. %d (%s) raised %s" % (k + 1, show_script([op]), r[1])
+                if r[0] == "foreign":
+                    add("foreign-exception-in-script[%s]" % op[0], "%s: %s" % (where, what))
+                elif op[0] in ("set", "attr"):
+                    add("valid-rejected-%s[%s]" % ("after-removal" if trace[k] else "in-script", op[0]),
+                        "%s: %s; the value is valid for the tag" % (where, what))
+                elif op[0] in ("delete", "none"):
+                    add("legal-call-rejected[%s]" % op[0], "%s: %s" % (where, what))
+                else:
+                    add("valid-tag-unreadable[%s]" % op[0], "%s: %s; every value assigned is valid" % (where, what))
+                bad = True
+                break
+            if op[0] == "str" and "# INVALID" in r[1]:
+                add("valid-flagged-invalid-in-script", "%s: call no. %d: str -> %r" % (where, k + 1, r[1]))
+        if bad:
+            continue
+        # the line is read and written; which one comes first depends on the case, not on the level
+        # (the value first: asking for the datatype of a tag records the default datatype of its value)
+        reads = lambda: [(lambda v: (n, line.get_datatype(n), v))(_render(gfapy, line.get(n))) for n in line.tagnames]
+        finals = [("get", reads), ("str", lambda: str(line))]
+        if not case.get("read_first"):
+            finals.reverse()
+        finals += [("validate", lambda: line.validate()), ("str", lambda: str(line))]
+        got = []
+        for name, fn in finals:
+            r = step(gfapy, fn)
+            if r[0] != "ok":
+                if r[0] == "foreign":
+                    add("foreign-exception-after-script[%s]" % name, "%s: then %s of the tags raised %s" % (where, name, r[1]))
+                elif name == "validate":
+                    add("valid-rejected-by-validate-after-script", "%s: then validate() raised %s" % (where, r[1]))
+                else:
+                    add("valid-tag-unreadable[final-%s]" % name, "%s: then %s raised %s; every value assigned is valid" % (
+                        where, "get() of every tag" if name == "get" else "str(line)", r[1]))
+                bad = True
+                break
+            got.append((name, r[1]))
+        if bad:
+            continue
+        tagobs = [v for n, v in got if n == "get"][0]
+        t1, t2 = [v for n, v in got if n == "str"]
+        if "# INVALID" in t1 or "# INVALID" in t2:
+            add("valid-flagged-invalid-after-script", "%s: str -> %r" % (where, t1))
+        if sorted(n for n, _, _ in tagobs) != sorted(present):
+            add("script-result-wrong", "%s: the line has the tags %r, the calls leave %r (%r)" % (
+                where, sorted(n for n, _, _ in tagobs), sorted(present), t1))
+        else:
+            for n, (fam, v) in sorted(known.items()):
+                if fam in ("i", "i+", "LN", "f", "Z", "A"):
+                    q = line.get(n)
+                    if q != v or type(q) is not type(v):
+                        add("script-result-wrong", "%s: get(%r) -> %r, last assigned %r" % (where, n, q, v))
+        # spelling of the delayed datatypes: known finding #30, reported by the `levels` cases
+        res[level] = (D.canon_delayed(t1), tagobs, D.canon_delayed(t2))
+    if len(res) >= 2:
+        base = max(res)
+        for k in sorted(res):
+            if res[k] != res[base]:
+                i = [j for j in range(3) if res[k][j] != res[base][j]][0]
+                add("levels-differ-after-script", "%s %s: %s: level %d gives %r, level %d gives %r" % (
+                    case["mode"], rec[0], text, k, res[k][i], base, res[base][i]))
+                break
+    # a rejected assignment first (it is what the property names); the order within a kind is the order of the levels
+    return sorted(F.values(), key=lambda m: 0 if m.startswith("valid-rejected") else 1)
+
+
 def oracle(case):
     if case["kind"] == "levels":
         return oracle_levels(case)
     if case["kind"] == "mono":
         return oracle_mono(case)
+    if case["kind"] == "script":
+        return oracle_script(case)
     return oracle_assign(case)
 
 
 def shrink(case, failure):
     if case["kind"] == "assign":
         return case
+    if case["kind"] == "script":
+        sig = failure.split(":")[0]
+        cur = dict(case)
+        changed = True
+        while changed:
+            changed = False
+            for i in range(len(cur["ops"]) - 1, -1, -1):
+                c = dict(cur, ops=cur["ops"][:i] + cur["ops"][i + 1:])
+                try:
+                    ok = bool(c["ops"]) and any(f.split(":")[0] == sig for f in oracle(c))
+                except Exception:  # noqa
+                    ok = False
+                if ok:
+                    cur = c
+                    changed = True
+        return cur
     sig = failure.split(":")[0]
     cur = dict(case)
 
